@@ -279,6 +279,22 @@ def builder_cases(tier):
 
         add(f"cond-{k}", mk_cond)
 
+        def mk_cond_refused(row=row, k=k):
+            """The first case fixes the outputs; a second case with another output row is refused, and the handles
+            still enumerate the outputs the Conditional operation has."""
+            c2 = Conditional(B, list(row))
+            with c2.add_case(0) as cs:
+                cs.set_outputs(*cs.inputs(), cs.load(val.TRUE))
+            cs1 = c2.add_case(1)
+            try:
+                cs1.set_outputs(*cs1.inputs())  # one output fewer: must be refused
+            except Exception:  # noqa: BLE001
+                pass
+            n = c2.parent_op.num_out
+            return [("Conditional builder after a refused case", c2, n), ("Conditional.parent_node after a refused case", c2.parent_node, n)]
+
+        add(f"cond-refused-{k}", mk_cond_refused)
+
         def mk_if(row=row, k=k):
             d = Dfg(B, *row)
             cw, *rest = d.inputs()
